@@ -51,6 +51,8 @@ def run_one(kind, entry, props):
             return {"id": entry["id"], "status": st, "fired": fired, "missing": missing, "details": details[:6]}
         else:
             st = "silent" if not fired else "false-alarm"
+            if fired and set(fired) <= set(entry.get("expect_alarm", [])):
+                st = "known-false-alarm"  # documented limitation (DESIGN §11), kept visible
             return {"id": entry["id"], "status": st, "fired": fired, "details": details[:10]}
     finally:
         shutil.rmtree(tmp, ignore_errors=True)
